@@ -7,6 +7,7 @@ THEOREMS = [
     ("EG.props.C17", "sem_accounting"),
     ("EG.props.C17", "C17_http_cap"),
     ("EG.props.C17", "C17_cap_follows_latest_spec"),
+    ("EG.props.C17", "C17_undrained_restart_exceeds_cap"),
     ("EG.props.C17", "C17_released_capacity_reusable"),
     ("EG.props.C17", "C17_close_releases_once"),
     ("EG.props.C17", "C17_mqtt_cap"),
@@ -51,6 +52,8 @@ ASSUMPTIONS = [
     "ideal = the three pinned defect sites repaired (NewSem clamps; a grow never releases more than the pre-acquired pool holds; "
     "a failed CONNACK write unregisters the client)",
     "MQTT: 'connected clients' = entries of Broker.clients; tear-down of one connection is one atomic step",
+    "listener replacement: requests in flight finish within the 30 s grace closeServer gives http.Server.Shutdown "
+    "(after that the unchanged runtime replaces the listener anyway and old + new connections share no cap)",
 ]
 
 MANIFEST = dict(
@@ -133,12 +136,15 @@ def encode(c):
         for op in i.get("ops") or []:
             if not op:
                 continue
-            ops.append("HDial" if op[0] == 0 else C("HClose", N(op[1])) if op[0] == 1 else C("HReload", Z(op[1])) if op[0] == 2
-                       else "HRestart" if op[0] == 3 else "HFail" if op[0] == 4 else "HRecover")
+            k = op[0]
+            ops.append("HDial" if k == 0 else C("HClose", N(op[1])) if k == 1 else C("HReload", Z(op[1])) if k == 2
+                       else "HRestart" if k == 3 else "HFail" if k == 4 else "HRecover" if k == 5
+                       else "HDialPark" if k == 6 else C("HUnpark", N(op[1])) if k == 7 else "HRestartIF")
         steps = [Rec(h_decoded=Z(s["decoded"]), h_served=L([N(x) for x in s.get("served") or []]), h_waiting=Z(s["waiting"]),
-                     h_cur=Z(s["cur"]), h_real=Z(s["real"]), h_wq=_zl(s.get("wq")), h_shr=Z(s["shr"]), h_skip=B(s.get("skip")), h_running=B(s.get("running")))
+                     h_cur=Z(s["cur"]), h_real=Z(s["real"]), h_wq=_zl(s.get("wq")), h_shr=Z(s["shr"]), h_skip=B(s.get("skip")), h_running=B(s.get("running")),
+                     h_old=Z(s.get("oldOpen", 0)), h_blocked=B(s.get("blocked")))
                  for s in o.get("steps") or []]
-        return Rec(hc_init=Z(i["init"]), hc_busy=B(i.get("busyStart")), hc_M=Z(i["M"]), hc_ops=L(ops), hc_obs=L(steps), hc_desync=B(o.get("desync")),
+        return Rec(hc_init=Z(i["init"]), hc_busy=B(i.get("busyStart")), hc_idle_ok=B((i.get("kat") or "") in ("", "0s", "60s")), hc_M=Z(i["M"]), hc_ops=L(ops), hc_obs=L(steps), hc_desync=B(o.get("desync")),
                    hc_bad=B(bool(o.get("bad"))))
     if g == "storm":
         return Rec(st_caps=_zl(i["caps"]), st_max=_zl(o.get("max")), st_accepted=Z(o["accepted"]), st_closed=Z(o["closed"]),
